@@ -100,7 +100,7 @@ struct inner_product_impl< Eigen::Matrix<T, N, 1> >
 {
     typedef T return_type;
     static T get(const Eigen::Matrix<T, N, 1> &x, const Eigen::Matrix<T, N, 1> &y) {
-        return x.adjoint() * y;
+        return y.adjoint() * x;
     }
 };
 
